@@ -47,6 +47,14 @@ C18Reasons(e, docs) ==
     LET paths == {[i \in 1..Len(p) |-> HeadingOf(docs, p[i])] : p \in Range(e.incr.paths)}
     IN  {<<"unsound-path", p>> : p \in {q \in paths : ~SoundPath(docs, q)}}
         \cup {<<"heading-without-path", h>> : h \in {g \in Headings(docs) : ~\E p \in paths : p # <<>> /\ p[Len(p)] = g}}
+        \* the command line tool (`iwe paths`, `iwe contents`, run on the library written to disk) lists the same
+        \* paths, and as contents exactly the notes whose top heading starts a listing
+        \cup (IF "cli" \in DOMAIN e
+              THEN (IF ~e.cli.ran THEN {<<"cli-listing-failed">>} ELSE {})
+                   \cup (IF e.cli.ran /\ e.cli.paths # e.fresh.paths THEN {<<"cli-paths-differ", e.cli.paths, e.fresh.paths>>} ELSE {})
+                   \cup (IF e.cli.ran /\ Range(e.cli.contents) # {p[1] : p \in {q \in Range(e.fresh.paths) : Len(q) = 1}}
+                         THEN {<<"cli-contents-differ", e.cli.contents>>} ELSE {})
+              ELSE {})
 
 (***************************************************************************)
 (* C20  on the arena (node ids are 0-based; nodes[id + 1])                 *)
